@@ -92,6 +92,19 @@ func (manager *TaskManager) Create(pip pipservices.Pip) (result pipservices.Task
 		Task: pip.Name,
 	})
 	taskname := childNamespaces.Task()
+	// The scope a task is started in must wait for the task.  scope.NewChild does not register the
+	// child of a scope that is done (its context failed): such a task would run detached from its
+	// parent, outlive it, and the events of its closing scope would reach scopes that are closed.
+	// So the task signs on to its parent scope explicitly (a scope that is done takes no new task)
+	// and signs off after the task scope has closed.
+	if err = parentScope.AddTasks(1); err != nil {
+		return nil, goaterr.Errorf("Scope of task '%s' is done", taskname)
+	}
+	defer func() {
+		if err != nil {
+			parentScope.DoneTask()
+		}
+	}()
 	manager.tasksMU.Lock()
 	defer manager.tasksMU.Unlock()
 	if _, ok = manager.tasks[taskname]; ok {
@@ -112,6 +125,7 @@ func (manager *TaskManager) Create(pip pipservices.Pip) (result pipservices.Task
 		CWD: pip.Context.CWD,
 	}))
 	task = NewTask(taskCtx, pip, manager.statusBroadcast, manager.doneTask)
+	task.afterCloseCB = parentScope.DoneTask
 	oLogger := gio.NewLogger(manager.oBroadcast, taskname)
 	if err = task.OBroadcast().Add(oLogger); err != nil {
 		childScope.Close()
